@@ -217,7 +217,7 @@ def run_job(job):
         "nref": nref, "nref_cached": ncached, "wall": time.monotonic() - t0,
         "steps": [{k: r.get(k) for k in ("k", "ok", "exc", "digest", "lines", "probes",
                                          "fault_fired", "fault_at", "clock_reads", "sim_s",
-                                         "draws", "reseeds")} for r in recs],
+                                         "draws", "reseeds", "rng_before")} for r in recs],
     }
     if job.get("keep_recs"):
         out["recs"] = recs
